@@ -370,3 +370,5 @@ func (b Batch) String() string {
 	}
 	return sb.String()
 }
+
+func mathFloat32bits(f float32) uint32 { return math.Float32bits(f) }
